@@ -250,8 +250,13 @@ def run(prog, world, sem, rep):
                 # (the entry may have been read through a wrapper around the reader: second attempt with workspace calls expanded)
                 for src in (xi, _through_wrapper(world, xi, readers)):
                     base = src.args[0] if src.op == "field" else None
-                    if base is not None and base.op == "proj":
-                        base = base.args[0]
+                    for _ in range(4):
+                        if base is not None and base.op == "proj" and base.args:
+                            base = world.ident(base.args[0], expand_ws=False)
+                        elif base is not None and base.op == "call" and base.info == "std::result::Result::ok" and len(base.args) == 1:
+                            base = world.ident(base.args[0], expand_ws=False)
+                        else:
+                            break
                     same = same or (src.op == "field" and src.info[0] == f and base is not None and base.op == "call"
                                     and base.info in readers and world.ident(base.args[1], expand_ws=False) == kid)
                 if not same:
